@@ -3,8 +3,10 @@
 A state is a history of cell refinements, each naming the leaf by its geometry (x0, y0, x1, y1), replayed on a fresh
 real object (UnitSquare() / PiSquare() / LShape()).  States are merged on a structural fingerprint (see fingerprint()).
 The state oracles (exact tiling, squares, descent, bookkeeping, balance, vertices, gmsh) live here as well."""
+import hashlib
 import random
 import time
+from array import array
 from fractions import Fraction
 
 from . import common
@@ -134,24 +136,73 @@ def fingerprint(m):
     of any state) is read by uniform_refine, refine_msh_bdr and gmsh only; it is treated as nondeterminism and
     explored separately (ordered_leaves)."""
     ids = vertex_ids(m)
+    names = sorted(set(ids.values()))
+    rank = {n: i for i, n in enumerate(names)}
+    vr = {k: rank[n] for k, n in ids.items()}
+    extra = []  # vertices that occur in the structures but not in m.vertices (never on intact code)
 
     def vid(v):
-        return ids.get(id(v), xy(v) + ('unregistered', ))
+        r = vr.get(id(v))
+        if r is None:
+            r = vr[id(v)] = len(names) + len(extra)
+            extra.append(xy(v))
+        return r
 
     leafids = set(map(id, m.leaf_elements))
+    elc = {}
 
     def elid(e):
-        return (tuple(vid(v) for v in e.vertices), e.level, id(e) in leafids)
+        r = elc.get(id(e))
+        if r is None:
+            r = elc[id(e)] = (tuple(vid(v) for v in e.vertices), e.level, id(e) in leafids)
+        return r
 
     bis = getattr(m, '_InitialMesh__bisect_edge')
     out = (
-        sorted((elid(e) for e in m.leaf_elements), key=repr),
-        sorted((vid(v) for v in m.vertices), key=repr),
-        sorted((((vid(a), vid(b)), elid(e)) for (a, b), e in m.nbrs.items()), key=repr),
-        sorted((((vid(a), vid(b)), (vid(c), vid(d))) for (a, b), (c, d) in m.parent_edge.items()), key=repr),
-        sorted((((vid(a), vid(b)), vid(c)) for (a, b), c in bis.items()), key=repr),
+        sorted(elid(e) for e in m.leaf_elements),
+        sorted(vid(v) for v in m.vertices),
+        sorted(((vid(a), vid(b)), elid(e)) for (a, b), e in m.nbrs.items()),
+        sorted(((vid(a), vid(b)), (vid(c), vid(d))) for (a, b), (c, d) in m.parent_edge.items()),
+        sorted(((vid(a), vid(b)), vid(c)) for (a, b), c in bis.items()),
+        names, extra,
     )
     return digest(out)
+
+
+def check_signature(m):
+    """Everything check_state reads (vertex list with coordinates and idx, element list with vertices, levels and
+    parent pointers, the leaf set), in list order: equal signatures => equal check_state verdicts."""
+    vpos = {}
+    for i, v in enumerate(m.vertices):
+        vpos.setdefault(id(v), i)
+    epos = {}
+    for i, e in enumerate(m.elements):
+        epos.setdefault(id(e), i)
+    fl = []
+    it = [len(m.vertices), len(m.elements), len(m.leaf_elements)]
+    for v in m.vertices:
+        fl.append(v.x)
+        fl.append(v.y)
+        it.append(v.idx)
+    for e in m.elements:
+        it.append(len(e.vertices))
+        for v in e.vertices:
+            p = vpos.get(id(v), -1)
+            it.append(p)
+            if p < 0:
+                fl.append(v.x)
+                fl.append(v.y)
+        it.append(e.level)
+        it.append(-1 if e.parent is None else epos.get(id(e.parent), -2))
+    leafpos = sorted(epos.get(id(e), -1) for e in m.leaf_elements)
+    if leafpos and leafpos[0] < 0:
+        return digest(('foreign leaf', id(m)))  # never equal to another signature: forces the full check
+    it.extend(leafpos)
+    try:
+        blob = array('d', fl).tobytes() + array('q', it).tobytes()
+    except (TypeError, OverflowError):
+        return digest((fl, it))
+    return hashlib.blake2b(blob, digest_size=16).digest()
 
 
 class ordered_leaves(set):
